@@ -76,26 +76,15 @@ func (r *Run) Logf(format string, a ...any) {
 	h.Write(r.hasher[:])
 	h.Write([]byte(s))
 	copy(r.hasher[:], h.Sum(nil))
-	if r.keepAll || len(r.trace) < traceRing {
-		r.trace = append(r.trace, s)
-	} else {
-		r.trace[r.events%traceRing] = s
+	r.trace = append(r.trace, s)
+	if !r.keepAll && len(r.trace) > 2*traceRing {
+		r.trace = append([]string(nil), r.trace[len(r.trace)-traceRing:]...)
 	}
 }
 
 func (r *Run) Events() int    { return r.events }
 func (r *Run) Digest() string { return hex.EncodeToString(r.hasher[:8]) }
-func (r *Run) Trace() []string {
-	if r.keepAll || r.events <= traceRing {
-		return r.trace
-	}
-	// unroll ring
-	out := make([]string, 0, traceRing)
-	for i := 1; i <= traceRing; i++ {
-		out = append(out, r.trace[(r.events+i)%traceRing])
-	}
-	return out
-}
+func (r *Run) Trace() []string { return r.trace }
 
 func (r *Run) Fault(kind string) { r.Faults[kind]++ }
 func (r *Run) Probe(name string) { r.Probes[name]++ }
@@ -240,8 +229,12 @@ func panicSite(stack string) string {
 		if !seenPanic {
 			continue
 		}
-		if i := strings.Index(l, "/repo/"); i >= 0 {
-			s := l[i+len("/repo/"):]
+		root := "/repo/"
+		if alt := os.Getenv("VERIF_REPO"); alt != "" && strings.Contains(l, alt+"/") {
+			root = alt + "/"
+		}
+		if i := strings.Index(l, root); i >= 0 {
+			s := l[i+len(root):]
 			if j := strings.Index(s, " "); j >= 0 {
 				s = s[:j]
 			}
